@@ -682,6 +682,9 @@ impl Visit for Analyzer<'_> {
   fn visit_for_of_stmt(&mut self, n: &ForOfStmt) {
     let body_lo = n.body.start();
 
+    // The head may contain default values (`for (const [a = () => {}] of xs)`),
+    // whose function bodies the rules look up in the result.
+    n.left.visit_with(self);
     n.right.visit_with(self);
 
     self.with_child_scope(BlockKind::Loop, body_lo, |a| {
@@ -697,6 +700,9 @@ impl Visit for Analyzer<'_> {
   fn visit_for_in_stmt(&mut self, n: &ForInStmt) {
     let body_lo = n.body.start();
 
+    // The head may contain default values (`for (const [a = () => {}] of xs)`),
+    // whose function bodies the rules look up in the result.
+    n.left.visit_with(self);
     n.right.visit_with(self);
 
     self.with_child_scope(BlockKind::Loop, body_lo, |a| {
